@@ -118,7 +118,19 @@ pub fn main<H: Harness>(h: H) {
 // ------------------------------------------------------------------------------------------------
 // worker
 
+/// Address-space cap for processes that run the code under test (workers and replays): a runaway
+/// allocation then aborts that one process (reported as a crash of the exact case) instead of
+/// exhausting the machine. MC_WORKER_MEM_GB overrides the default of 6 GiB.
+fn limit_memory() {
+    let gb: u64 = std::env::var("MC_WORKER_MEM_GB").ok().and_then(|s| s.parse().ok()).unwrap_or(6);
+    let lim = libc::rlimit { rlim_cur: gb << 30, rlim_max: gb << 30 };
+    unsafe {
+        libc::setrlimit(libc::RLIMIT_AS, &lim);
+    }
+}
+
 fn worker_main<H: Harness>(h: &H, a: &Args, idx: usize, ctl_path: &Path, frag: &Path) -> i32 {
+    limit_memory();
     let plan = h.plan(a.tier, a.seed);
     let jobs = filter_jobs(plan.jobs, &a.only_job);
     let ctl = Ctl::open(ctl_path, a.workers, false).unwrap_or_else(|e| die(2, &format!("worker: cannot map control file: {}", e)));
@@ -186,6 +198,7 @@ struct ReplayFile {
 /// Re-execute one recorded case without the explorer. Prints what it sees; exit 1 if any violation
 /// is reproduced, 0 if the case passes.
 fn replay_file<H: Harness>(h: &H, path: &Path) -> i32 {
+    limit_memory();
     let txt = std::fs::read_to_string(path).unwrap_or_else(|e| die(2, &format!("cannot read {}: {}", path.display(), e)));
     let rf: ReplayFile = serde_json::from_str(&txt).unwrap_or_else(|e| die(2, &format!("bad replay file: {}", e)));
     let ex = explore::run_once(h, &rf.job, &rf.choices, &[], true);
